@@ -253,6 +253,142 @@ def m3_phases_forward(F, r):
         raise AnchorError(f"only {n} phase assignments found")
 
 
+ELIT = "rosomaxa::population::elitism::Elitism"
+
+
+def e1_capacity_reestablished(F, r):
+    """every node holds at most its capacity: (a) every function that re-assigns an elite's capacity truncates afterwards, the truncation keeps len <= capacity;
+    (b) after construction the network creates and resizes node storages with config.node_size; (c) grown nodes use the network's storage factory"""
+    from .. import ordeval as oe
+    # (a) writers of max_population_size
+    n = 0
+    for fid, fn in sorted(F.fns.items()):
+        if "::promoted[" in fid or not fid.startswith(ELIT):
+            continue
+        stores = [(bi, st) for bi, si, st in mir.stmts(fn) if mir.proj_fields(st["d"]) and mir.proj_fields(st["d"])[-1][1] == "max_population_size" and mir.proj_fields(st["d"])[-1][0].endswith("::Elitism")]
+        if not stores:
+            continue
+        n += 1
+        trunc = [bi for bi, t in mir.calls(fn) if t["callee"].endswith("::ensure_max_population_size") or t["callee"].endswith("Vec::<T, A>::truncate")]
+        name = util.short_fn(fid)
+        rets = set(mir.ret_blocks(fn))
+        for bi, st in stores:
+            seen = mir.reach_from_succs(fn, bi, blocked=set(trunc)) | ({bi} if bi in rets else set())
+            same_block_after = any(b == bi for b in trunc)
+            if (seen & rets) and not same_block_after:
+                r.fail(f"{name}: capacity", "the elite's capacity is re-assigned without truncating the stored individuals afterwards: a node keeps more individuals than its capacity "
+                       "until it happens to be hit again", F.loc(fid, st.get("ln")))
+            else:
+                r.ok(f"{name}: capacity", "re-assignment is followed by the truncation on every path")
+    if n < 1:
+        raise AnchorError("no function re-assigns Elitism.max_population_size")
+    em = [i for i in F.fns if i.startswith(ELIT) and i.endswith("::ensure_max_population_size")]
+    if len(em) == 1:
+        efn = F.fns[em[0]]
+        tr = [t for _, t in mir.calls(efn) if t["callee"].endswith("Vec::<T, A>::truncate")]
+        if tr and any(p and p[-1] == "max_population_size" for k, v, p in mir.trace(efn, tr[0]["args"][1])):
+            r.ok("Elitism::ensure_max_population_size", "truncate(max_population_size)")
+        else:
+            r.fail("Elitism::ensure_max_population_size", "the truncation no longer cuts to max_population_size", F.loc(em[0]))
+    # (b) Network::new ends with node_size everywhere
+    nn = [i for i in F.fns if i.startswith("rosomaxa::algorithms::gsom::network::Network") and i.endswith("::new") and F.fns[i]["kind"] != "Closure" and "::promoted[" not in i]
+    if len(nn) != 1:
+        raise AnchorError(f"Network::new resolves to {nn}")
+    fn = F.fns[nn[0]]
+    good, bad = set(), set()
+    for bi, t in mir.calls(fn):
+        pf = mir.proj_fields(t["dest"])
+        if pf and pf[-1][1] == "storage_factory":
+            arg_toks = set()
+            for a in t["args"]:
+                for k, v, p in mir.trace(fn, a):
+                    arg_toks |= set(map(str, p))
+                    if k in ("arg", "local"):
+                        arg_toks.add(fn["names"].get(str(v), ""))
+            (good if "node_size" in arg_toks else bad).add(bi)
+    for bi, si, st in mir.stmts(fn):
+        if st["r"]["k"] == "agg" and st["r"].get("n", "").endswith("Network#Network"):
+            bad.add(bi)
+        pf = mir.proj_fields(st["d"])
+        if pf and pf[-1][1] == "storage_factory" and st["r"]["k"] == "use":
+            toks = set()
+            for k, v, p in mir.deep_leaves(fn, st["r"]["o"][0])[0]:
+                toks |= set(map(str, p))
+            (good if "node_size" in toks else bad).add(bi)
+    rets = set(mir.ret_blocks(fn))
+    if not good:
+        r.fail("Network::new: storage factory", "after the initial balancing the network's storage factory is not reset to config.node_size: every node grown later gets the capacity of the "
+               "initial batch instead of node_size", F.loc(nn[0]))
+    else:
+        leak = any(mir.reach_from_succs(fn, b, blocked=good) & rets for b in bad - good)
+        later_bad = any(mir.reach_from_succs(fn, g, blocked=set()) & (bad - good) for g in good)
+        if leak or later_bad:
+            r.fail("Network::new: storage factory", "a path returns the network with a storage factory that is not built from config.node_size", F.loc(nn[0]))
+        else:
+            r.ok("Network::new: storage factory", "every returned network creates node storages with config.node_size")
+    rs = [(g, t) for g in F.family(nn[0]) for _, t in mir.calls(F.fns[g]) if t["callee"].endswith("::resize")]
+    okr = False
+    for g, t in rs:
+        gfn = F.fns[g]
+        toks = set()
+        for k, v, p in mir.trace(gfn, t["args"][-1]):
+            toks |= set(map(str, p))
+            if gfn["kind"] == "Closure" and k == "arg" and v == 1 and p and str(p[0]).isdigit() and int(p[0]) < len(gfn.get("upvars", [])):
+                toks.add(gfn["upvars"][int(p[0])][0])
+        if "node_size" in toks or any("node_size" in x for x in toks):
+            okr = True
+    if okr:
+        r.ok("Network::new: resize", "existing node storages are resized to config.node_size")
+    else:
+        r.fail("Network::new: resize", "the storages filled during the initial balancing are not resized to config.node_size", F.loc(nn[0]))
+
+
+AXES = ("x", "y")
+
+
+def a1_axis_agreement(F, r):
+    """compaction: each coordinate is shifted with the bounds and the decimation step of ITS OWN axis (x with x_*, y with y_*)"""
+    cg_ = [i for i in F.fns if i.endswith("contraction::contract_graph")]
+    if len(cg_) != 1:
+        raise AnchorError("contraction::contract_graph")
+    n = 0
+    undecided = 0
+    for g in F.family(cg_[0]):
+        fn = F.fns[g]
+        for bi, t in mir.calls(fn):
+            if not t["callee"].endswith("contraction::get_offset"):
+                continue
+            n += 1
+            axes = []
+            for a in t["args"]:
+                names = set()
+                for k, v, p in mir.deep_leaves(fn, a)[0]:
+                    if k in ("arg", "local"):
+                        nm = fn["names"].get(str(v), "")
+                        if nm:
+                            names.add(nm)
+                    if fn["kind"] == "Closure" and k == "arg" and v == 1 and p and str(p[0]).isdigit() and int(p[0]) < len(fn.get("upvars", [])):
+                        names.add(fn["upvars"][int(p[0])][0])
+                ax = {nm[0] for nm in names if nm[:1] in AXES and (len(nm) == 1 or nm[1] == "_")}
+                for k, v, p in mir.deep_leaves(fn, a)[0]:
+                    if k == "arg" and v < len(fn["locals"]) and fn["locals"][v].endswith("::Coordinate") and p and str(p[0]) in ("0", "1"):
+                        ax.add(AXES[int(p[0])])          # Coordinate(x, y): component 0 is x, component 1 is y
+                axes.append(ax)
+            flat = set().union(*axes) if axes else set()
+            if any(len(ax) == 0 for ax in axes):
+                undecided += 1
+                continue
+            if len(flat) == 1 and all(len(ax) == 1 for ax in axes):
+                r.ok(f"contract_graph: get_offset({next(iter(flat))})", "value, bounds and decimation step of one axis")
+            else:
+                r.fail(f"contract_graph: get_offset#{n}", f"a coordinate is shifted with the bounds / decimation step of the OTHER axis (arguments belong to axes {[sorted(a) for a in axes]}): on a non-square "
+                       "map surviving rows collide and nodes overwrite each other", F.loc(g, t["ln"]))
+    if n < 2:
+        raise AnchorError(f"only {n} get_offset calls in contract_graph")
+    if undecided:
+        r.ok("contract_graph: axis names", f"not decided for {undecided} call(s): arguments are not held in variables named x*/y*")
+
+
 def run(ctx):
     ctx.explanation = (
         "Structural well-formedness of the GSOM behind the default population: the node map is private, mutated only in network.rs, every insertion keys "
@@ -262,4 +398,6 @@ def run(ctx):
     ctx.not_decided = "finiteness of weights/errors, node capacity, lookup results, elite bounds (value-level)."
     ctx.run("C19-M1", "node map key == node.coordinate on every insertion; coordinate rewritten only in remap", m1_key_is_coordinate, floor=8)
     ctx.run("C19-M2", "compaction never grows the map nor leaves fewer than four nodes", m2_compaction, floor=6)
+    ctx.run("C19-E1", "node capacity: capacity re-assignment truncates; after construction storages are created and resized with node_size", e1_capacity_reestablished, floor=4)
+    ctx.run("C19-A1", "compaction shifts each coordinate with its own axis' bounds and step", a1_axis_agreement, floor=1)
     ctx.run("C19-M3", "population phases only move forward", m3_phases_forward, floor=3)
